@@ -165,20 +165,14 @@ class ArFile(object):
         can be specified either as a string (its name) or as a ArMember
         instance. """
 
-        # TODO(jsw): What is the point of this method?  It differs from
-        # getmember in the following ways:
-        #  - It returns the *first* member with the given name instead of the
-        #    last.
-        #  - If member is an ArMember, it uses that ArMember's name as the key.
-        # The former just seems confusing (and this implementation less
-        # efficient than getmember's - probably historical), and I'm having a
-        # hard time seeing the use-case for the latter.
-        for m in self.__members:
-            if isinstance(member, ArMember) and m.name == member.name:
-                return m
-            if member == m.name:
-                return m
-        return None
+        # A name denotes the same member as for getmember (the last one of
+        # that name); a member of this archive denotes itself.
+        if isinstance(member, ArMember):
+            for m in self.__members:
+                if m is member:
+                    return m
+            return None
+        return self.__members_dict.get(member)
 
     # container emulation
 
